@@ -76,6 +76,15 @@ func Root() string {
 	return "/verif"
 }
 
+// Repo is the goose tree under test: /repo, unless VERIF_REPO redirects the
+// build to a scratch worktree (sensitivity experiments only).
+func Repo() string {
+	if r := os.Getenv("VERIF_REPO"); r != "" {
+		return r
+	}
+	return "/repo"
+}
+
 // Tier is "quick" or "thorough".
 func Tier() string {
 	if t := os.Getenv("VERIF_TIER"); t == "thorough" {
@@ -347,6 +356,28 @@ func Findings(property string) []Finding {
 		}
 	}
 	return out
+}
+
+// SwitchOn reports whether the generator exclusion switch of a known (not
+// fixed) finding is on, i.e. whether known_findings.json lists a finding
+// with status "known" and this switch name.
+func SwitchOn(name string) bool {
+	b, err := os.ReadFile(filepath.Join(Root(), "known_findings.json"))
+	if err != nil {
+		return false
+	}
+	var all struct {
+		Findings []Finding `json:"findings"`
+	}
+	if json.Unmarshal(b, &all) != nil {
+		return false
+	}
+	for _, f := range all.Findings {
+		if f.Status == "known" && f.Switch == name {
+			return true
+		}
+	}
+	return false
 }
 
 // ReplayFile is the on-disk format of a replay (and of a pinned known case).
